@@ -152,46 +152,53 @@ Proof.
 Qed.
 
 Section Tree.
-Variables (wc : N) (rs : ruleset) (pk : packet) (k : epkind) (cp : name) (E : list rule) (rE : result).
+Variables (wc : N) (rs : ruleset) (pk : packet) (ix : name) (k : epkind) (cp : name).
+Variables (E Ec : list rule) (rE rEc : result).   (* end of the root chain / end of every child chain *)
 Let i := pkt_if (kind_dir k) pk.
-Variable B : nat.
-Hypothesis HE : forall f, (length E < f)%nat -> run f wc rs pk E [] = rE.
+Variables B NE : nat.
+Hypothesis HE : forall f, (NE < f)%nat -> run f wc rs pk E [] = rE.
+Hypothesis HEc : forall f, (length Ec < f)%nat -> run f wc rs pk Ec [] = rEc.
+
+(* a probe that is in no group but matches the prefix pattern of a group with a child chain ends in that child *)
+Definition captured (gs : groups) (i : name) : bool :=
+  existsb (fun g => is_multi (snd g) && is_prefix (fst g) i) gs.
 
 Lemma root_scan : forall gs f,
   Forall (fun n => name_plain wc n = true) (all_names gs) ->
   (forall g, In g gs -> is_multi (snd g) = true ->
-     find_chain (child_id k cp (fst g)) (rs_chains rs) = Some (map (ep_rule k) (snd g) ++ E)
-     /\ (length (snd g) + length E < B)%nat) ->
+     find_chain (child_id ix k cp (fst g)) (rs_chains rs) = Some (map (ep_rule k) (snd g) ++ Ec)
+     /\ (length (snd g) + length Ec < B)%nat) ->
   (forall g n, In g gs -> In n (snd g) -> is_prefix (fst g) n = true) ->
   (forall g, In g gs -> is_multi (snd g) = true -> is_prefix (fst g) i = true ->
      In i (all_names gs) -> In i (snd g)) ->
-  (length (flat_map (root_rule wc k cp) gs) + length E + B < f)%nat ->
-  run f wc rs pk (flat_map (root_rule wc k cp) gs ++ E) [] =
-  if mem i (all_names gs) then REndpoint k i else rE.
+  (length (flat_map (root_rule wc ix k cp) gs) + NE + B < f)%nat ->
+  run f wc rs pk (flat_map (root_rule wc ix k cp) gs ++ E) [] =
+  if mem i (all_names gs) then REndpoint k i else if captured gs i then rEc else rE.
 Proof.
   induction gs as [|[p ns] gs IH]; intros f HP Hfind Hpre Hcap Hf.
   - simpl. apply HE. simpl in Hf. lia.
   - unfold all_names in *. cbn [map concat flat_map snd fst] in *.
     apply Forall_app in HP. destruct HP as [HPns HPrest].
-    assert (IH' : forall f', (length (flat_map (root_rule wc k cp) gs) + length E + B < f')%nat ->
-              run f' wc rs pk (flat_map (root_rule wc k cp) gs ++ E) [] =
-              if mem i (concat (map snd gs)) then REndpoint k i else rE).
+    assert (IH' : forall f', (length (flat_map (root_rule wc ix k cp) gs) + NE + B < f')%nat ->
+              run f' wc rs pk (flat_map (root_rule wc ix k cp) gs ++ E) [] =
+              if mem i (concat (map snd gs)) then REndpoint k i else if captured gs i then rEc else rE).
     { intros f' Hf'. apply IH; auto.
       - intros g Hg. apply Hfind. right; auto.
       - intros g n Hg. apply (Hpre g n). right; auto.
       - intros g Hg Hm Hpi Hin. apply Hcap; auto. right; auto. apply in_or_app. right; auto. }
     rewrite mem_app. unfold root_rule at 1. unfold root_rule at 1 in Hf. cbn [snd fst] in Hf |- *.
+    unfold captured. cbn [existsb fst snd]. fold (captured gs i).
     destruct (is_multi ns) eqn:Em.
     + (* child chain *)
       rewrite app_length in Hf. cbn [length] in Hf.
       destruct f as [|f]; [lia|]. cbn [app].
       destruct (Hfind (p, ns) (or_introl eq_refl) Em) as [Hfc Hsz]. cbn [fst snd] in Hfc, Hsz.
       destruct (is_prefix p i) eqn:Epi.
-      * unfold child_id in *. rewrite (run_goto_child _ _ _ _ _ _ _ _ _ (map (ep_rule k) ns ++ E))
+      * unfold child_id in *. rewrite (run_goto_child _ _ _ _ _ _ _ _ _ (map (ep_rule k) ns ++ Ec))
           by (auto; rewrite match_iface, pat_wild; exact Epi).
         rewrite scan_exact by (auto; lia). fold i.
         destruct (mem i ns) eqn:Emi; [reflexivity|].
-        rewrite HE by lia. simpl.
+        rewrite HEc by lia. simpl.
         destruct (mem i (concat (map snd gs))) eqn:Emr; [|reflexivity].
         exfalso. apply mem_false in Emi. apply Emi.
         apply (Hcap (p, ns)); auto. left; auto. apply in_or_app. right. apply mem_In. exact Emr.
@@ -200,7 +207,7 @@ Proof.
         assert (mem i ns = false) as ->; [|reflexivity].
         apply mem_false. intros Hin. specialize (Hpre (p, ns) i (or_introl eq_refl) Hin).
         cbn [fst] in Hpre. congruence.
-    + apply is_multi_cases in Em. destruct Em as [->|[n ->]].
+    + cbn [andb orb]. apply is_multi_cases in Em. destruct Em as [->|[n ->]].
       * simpl. apply IH'. simpl in Hf. exact Hf.
       * cbn [app length] in *. destruct f as [|f]; [lia|].
         inversion HPns; subst. fold (ep_rule k n).
@@ -601,16 +608,16 @@ Proof.
   - apply IH. intros ch Hc. apply H. simpl; auto.
 Qed.
 
-Lemma child_chains_kind : forall k cp gs E ch, In ch (child_chains k cp gs E) ->
+Lemma child_chains_kind : forall ix k cp gs E ch, In ch (child_chains ix k cp gs E) ->
   exists s, fst ch = CChild k s.
 Proof.
-  intros k cp gs E ch H. unfold child_chains in H. apply in_flat_map in H.
+  intros ix k cp gs E ch H. unfold child_chains in H. apply in_flat_map in H.
   destruct H as [g [_ H]]. destruct (is_multi (snd g)); [|inversion H].
   destruct H as [<-|[]]. unfold child_id. simpl. eauto.
 Qed.
 
-Lemma find_root_in_tree : forall wc k cp gs E post,
-  find_chain (CRoot k) (build_tree wc k cp gs E ++ post) = Some (flat_map (root_rule wc k cp) gs ++ E).
+Lemma find_root_in_tree : forall wc ix k cp gs E post,
+  find_chain (CRoot k) (build_tree wc ix k cp gs E ++ post) = Some (flat_map (root_rule wc ix k cp) gs ++ E).
 Proof.
   intros. unfold build_tree. rewrite <- app_assoc.
   assert (forall l rest, (forall ch, In ch l -> exists s, fst ch = CChild k s) ->
@@ -629,11 +636,11 @@ Proof.
   rewrite !skipn_app, !skipn_all, !Nat.sub_diag in H. simpl in H. subst; auto.
 Qed.
 
-Lemma find_child : forall k cp E gs p ns rest,
+Lemma find_child : forall ix k cp E gs p ns rest,
   NoDup (map fst gs) ->
   (forall g, In g gs -> is_multi (snd g) = true -> is_prefix cp (fst g) = true) ->
   In (p, ns) gs -> is_multi ns = true ->
-  find_chain (child_id k cp p) (child_chains k cp gs E ++ rest) = Some (map (ep_rule k) ns ++ E).
+  find_chain (child_id ix k cp p) (child_chains ix k cp gs E ++ rest) = Some (map (ep_rule k) ns ++ E).
 Proof.
   induction gs as [|[p0 ns0] gs IH]; intros p ns rest ND HP Hin Hm; [inversion Hin|].
   simpl in ND. inversion ND as [|x l NI ND']; subst.
@@ -643,8 +650,8 @@ Proof.
     rewrite epkind_eqb_refl, name_eqb_refl. reflexivity.
   - destruct (is_multi ns0) eqn:Em0.
     + simpl. unfold child_id at 1 2. simpl. rewrite epkind_eqb_refl. simpl.
-      destruct (name_eqb (skipn (length cp) p) (skipn (length cp) p0)) eqn:Es.
-      * exfalso. apply name_eqb_eq in Es. apply skipn_cp_inj in Es.
+      destruct (name_eqb (ix ++ skipn (length cp) p) (ix ++ skipn (length cp) p0)) eqn:Es.
+      * exfalso. apply name_eqb_eq in Es. apply app_inv_head in Es. apply skipn_cp_inj in Es.
         -- subst p0. apply NI. apply (in_map fst) in Hin. exact Hin.
         -- apply (HP (p, ns)); simpl; auto.
         -- apply (HP (p0, ns0)); simpl; auto.
@@ -670,7 +677,7 @@ Qed.
 
 (* ---------- evaluation of a rendered prefix tree inside a larger rule set ---------- *)
 Lemma tree_eval : forall wc rs pk k cp gs E rE pre post,
-  rs_chains rs = pre ++ build_tree wc k cp gs E ++ post ->
+  rs_chains rs = pre ++ build_tree wc [] k cp gs E ++ post ->
   (forall ch, In ch pre -> cid_kind (fst ch) <> k) ->
   good_groups cp gs ->
   Forall (fun n => name_plain wc n = true) (all_names gs) ->
@@ -680,7 +687,7 @@ Lemma tree_eval : forall wc rs pk k cp gs E rE pre post,
 Proof.
   intros wc rs pk k cp gs E rE pre post Hrs Hpre GG HP HE.
   unfold eval.
-  assert (Hroot : find_chain (CRoot k) (rs_chains rs) = Some (flat_map (root_rule wc k cp) gs ++ E)).
+  assert (Hroot : find_chain (CRoot k) (rs_chains rs) = Some (flat_map (root_rule wc [] k cp) gs ++ E)).
   { rewrite Hrs. rewrite find_chain_skip by (intros ch Hc; simpl; apply Hpre; auto).
     apply find_root_in_tree. }
   rewrite Hroot.
@@ -689,12 +696,14 @@ Proof.
     pose proof (gg_key _ _ GG (p, m :: ns) m Hg (or_introl eq_refl)) as K. cbn [fst] in K. rewrite <- K.
     apply key_has_cp. apply (gg_cp _ _ GG). eapply in_all_names; eauto. simpl; auto. }
   assert (Hchild : forall g, In g gs -> is_multi (snd g) = true ->
-            find_chain (child_id k cp (fst g)) (rs_chains rs) = Some (map (ep_rule k) (snd g) ++ E)).
+            find_chain (child_id [] k cp (fst g)) (rs_chains rs) = Some (map (ep_rule k) (snd g) ++ E)).
   { intros [p ns] Hg Hm. cbn [fst snd] in *. rewrite Hrs.
     rewrite find_chain_skip by (intros ch Hc; simpl; apply Hpre; auto).
     unfold build_tree. rewrite <- app_assoc.
     apply find_child; auto. exact (gg_keys _ _ GG). }
-  apply (root_scan wc rs pk k cp E rE (S (chains_size (rs_chains rs))) HE); auto.
+  rewrite (root_scan wc rs pk [] k cp E E rE rE (S (chains_size (rs_chains rs))) (length E) HE HE gs).
+  - destruct (mem (pkt_if (kind_dir k) pk) (all_names gs)); auto. destruct (captured gs (pkt_if (kind_dir k) pk)); reflexivity.
+  - auto.
   - intros g Hg Hm. split; [apply Hchild; auto|].
     destruct (find_chain_in _ _ _ (Hchild g Hg Hm)) as [c' Hc'].
     apply chains_size_in in Hc'. rewrite app_length, map_length in Hc'. lia.
@@ -771,9 +780,9 @@ Proof.
   - intros i. apply mem_ext; auto.
 Qed.
 
-Lemma build_tree_kinds : forall wc k cp gs E ch, In ch (build_tree wc k cp gs E) -> cid_kind (fst ch) = k.
+Lemma build_tree_kinds : forall wc ix k cp gs E ch, In ch (build_tree wc ix k cp gs E) -> cid_kind (fst ch) = k.
 Proof.
-  intros wc k cp gs E ch H. unfold build_tree in H. apply in_app_or in H. destruct H as [H|[<-|[]]]; auto.
+  intros wc ix k cp gs E ch H. unfold build_tree in H. apply in_app_or in H. destruct H as [H|[<-|[]]]; auto.
   apply child_chains_kind in H. destruct H as [s ->]. reflexivity.
 Qed.
 
@@ -845,14 +854,14 @@ Proof.
       eapply (tree_eval _ _ pk KWlFrom cp gs _ _ [] _); simpl; auto; try reflexivity; try other_kind.
       intros. eapply end_deny; auto.
     + rewrite <- HM.
-      eapply (tree_eval _ _ pk KWlTo cp gs _ _ (build_tree _ KWlFrom cp gs _) []); simpl; auto.
+      eapply (tree_eval _ _ pk KWlTo cp gs _ _ (build_tree _ [] KWlFrom cp gs _) []); simpl; auto.
       * rewrite app_nil_r. reflexivity.
       * other_kind.
       * intros. eapply end_deny; auto.
 Qed.
 
 Lemma build_single_host : forall c k cp gs E, is_wl_kind k = false ->
-  build_single c k cp gs E = build_tree (wildcard c) k cp gs E.
+  build_single c k cp gs E = build_tree (wildcard c) [] k cp gs E.
 Proof. intros. unfold build_single. rewrite H, andb_false_r. reflexivity. Qed.
 
 Lemma spec_host_plain : forall k names dflt wl i,
@@ -873,10 +882,10 @@ Proof.
   destruct (names_ok_divide _ _ OK) as [cp [gs [HD [GG [HP HM]]]]].
   unfold host_dispatch, host_dispatch_chains, iface_dispatch, opt_app. rewrite HD.
   rewrite !build_single_host by reflexivity.
-  set (TF := build_tree (wildcard c) KHostFrom cp gs (default_goto KHostFrom dflt)).
-  set (TT := build_tree (wildcard c) KHostTo cp gs (host_to_end c dflt (mode_aof m))).
-  set (TFF := build_tree (wildcard c) KHostFromFwd cp gs (default_goto KHostFromFwd dflt)).
-  set (TTF := build_tree (wildcard c) KHostToFwd cp gs (default_goto KHostToFwd dflt)).
+  set (TF := build_tree (wildcard c) [] KHostFrom cp gs (default_goto KHostFrom dflt)).
+  set (TT := build_tree (wildcard c) [] KHostTo cp gs (host_to_end c dflt (mode_aof m))).
+  set (TFF := build_tree (wildcard c) [] KHostFromFwd cp gs (default_goto KHostFromFwd dflt)).
+  set (TTF := build_tree (wildcard c) [] KHostToFwd cp gs (default_goto KHostToFwd dflt)).
   assert (AF : forall rs pk pre post, rs_chains rs = pre ++ TF ++ post ->
              (forall ch, In ch pre -> cid_kind (fst ch) <> KHostFrom) ->
              eval (wildcard c) rs pk (CRoot KHostFrom) =
@@ -1015,7 +1024,7 @@ Qed.
 
 (* the oracle of Spec.v accepts every run of the model *)
 Lemma result_eqb_refl : forall r, result_eqb r r = true.
-Proof. intros [| | | |k n| |]; simpl; auto. rewrite epkind_eqb_refl, name_eqb_refl. reflexivity. Qed.
+Proof. intros [| | | |a b|k n| |]; simpl; auto; [rewrite !N.eqb_refl|rewrite epkind_eqb_refl, name_eqb_refl]; reflexivity. Qed.
 
 Lemma pkt_if_mk : forall k p d, pkt_if (kind_dir k) (mk_packet k p d) = p.
 Proof. intros. unfold mk_packet. destruct (kind_dir k); reflexivity. Qed.
@@ -1028,10 +1037,12 @@ Proof.
   apply existsb_exists. exists []. auto.
 Qed.
 
-Lemma model_meets_spec : forall c, c_impl c = model_of c -> ok_case c = true.
+Definition is_setmark (ck : ckind) : bool := match ck with CSetMark _ _ _ => true | _ => false end.
+
+Lemma model_meets_spec : forall c, is_setmark (c_kind c) = false -> c_impl c = model_of c -> ok_case c = true.
 Proof.
-  intros [c ck names impl probes] H. unfold ok_case, model_of in *. cbn [c_impl c_kind c_cfg c_names c_probes] in *.
-  subst impl. destruct ck as [|dflt m].
+  intros [c ck names impl probes] Hsm H. unfold ok_case, model_of in *. cbn [c_impl c_kind c_cfg c_names c_probes] in *.
+  subst impl. destruct ck as [|dflt m|hep mk msk]; [| |discriminate]; cbn [names_ok forallb]; rewrite ?andb_true_r, ?app_nil_r.
   - destruct (workload_dispatch c names) as [rs|] eqn:E.
     + destruct (names_ok _ names) eqn:OK; auto.
       destruct (workload_char c names OK) as [rs' [E' HC]]. rewrite E in E'. inversion E'; subst rs'.
